@@ -3,8 +3,51 @@ import PoryProofs.EmitLemmas
 import PoryProofs.ParserWp
 import PoryProofs.LexTok
 import PoryProofs.Properties.C06
+import PoryProofs.Properties.C09
 import PoryProofs.Properties.C20
+/-
+C06b — hoisting of inline texts and `moves()`: the movement twin, "different content never shares a
+label", the patched argument slot, and the single emission of every hoisted text.
+(First half: PoryProofs/Properties/C06.lean; helper lemmas: PoryProofs/HoistLemmas.lean.)
 
+1. Movement twins of all C06 theorems for `addMovementStep` / `getMovementsKey`:
+   `movement_patch_appended`, `movement_label_assigned`, `movement_lookup_stable(_fold)`,
+   `movement_same_key_same_label`, `movement_defined_once`, `new_movement_recorded`,
+   `movement_numbering`; `movement_key_injective` (hypothesis `NoColon` on BOTH step lists: no step
+   literal contains ':'; needed — `movement_key_collision`; guaranteed by the lexer — `ident_no_colon`:
+   an IDENT token's literal consists of letters / digits, and ':' is neither);
+   hence `different_steps_different_labels`.
+2. Freshness from the counters: `TextInv` / `MoveInv` (every label in the table is
+   `getImplicit…Label owner k` with `k < lookupD counts owner`; labels pairwise distinct; the hoisted
+   records carry exactly the table's labels in order of creation and exactly the key's content),
+   true initially (`textInv_init`, `hoistInv_initial`), preserved by `addTextStep` /
+   `addMovementStep` / `addImplicitData` (`textInv_step`, `moveInv_step`, `hoistInv_addImplicitData`).
+   `Hoist.text_label_inj` / `movement_label_inj`: generated names determine (owner, counter) with NO
+   condition on owner names — the counter is the digits after the LAST '_' — so labels of different
+   owners can never collide (no finding here); `text_ne_movement_label`: nor can a text and a
+   movement label.  Hence `different_content_different_label`, `different_key_different_label`,
+   `hoisted_text_names_nodup`, `assigned_text_defined` (the label that is patched in IS defined, with
+   exactly that content and string type, local).
+3. Emitter side: `patchedArgs_get` (complete description), `patched_slot`, `unpatched_slot`,
+   `other_commands_untouched`, `unpatched_command`; combined with `patch_appended`:
+   `hoisted_text_label_rendered`, `hoisted_movement_label_rendered`, `…_pass`.
+   Uniqueness hypothesis: no LATER patch for the same `(cmdId, argPos)`.  Command ids are unique
+   (`parseCommandStatement` allocates from `nextCmdId`), `argPos = a.args.length` separates
+   different arguments, but two inline items inside ONE argument (`msgbox("a" ascii"b")`) share the
+   slot: the later label overwrites the earlier one (`same_slot_last_wins`), whose text is still
+   emitted but referenced by nothing.  Same in Go (`argPos: len(command.Args)`, parser.go).
+4. `emitProgram_texts`, `hoisted_text_emitted_once`, `text_label_defined_once`: the output ends
+   with the text section, each text rendered once as `emitText o t` (C09.emitText_shape), whose label
+   definitions are exactly the text names; distinct when `firstDuplicateText p.texts [] = none`
+   (C20.firstDuplicateText_none_iff), which `parseProgramM` / `parseTokens` guarantee
+   (`parseProgram_texts`, `parseTokens_texts_distinct`).
+
+NOT proved here (would need a frame lemma over the 13 mutually recursive parser functions): that the
+final parser state satisfies `HoistInv`, i.e. that no parser function other than `addImplicitData`
+writes the hoisting tables / counters / `patches`, and that the `ImpData` collected for a statement
+has pairwise distinct slots when every argument holds at most one inline item.  The invariant is
+proved for the initial state and for every `addImplicitData`.
+-/
 namespace Pory.C06b
 open Pory Pory.Parser Pory.Emit Pory.Hoist Pory.C06
 
@@ -682,5 +725,228 @@ theorem same_slot_last_wins (s : PState) (hinv : TextInv s) (t1 t2 : ImpText) (c
   refine ⟨rfl, ?_⟩
   intro h
   exact different_content_different_label s hinv t1 t2 [] hk (Option.some.inj h)
+
+/-! ## 4. Every hoisted text is emitted exactly once -/
+
+/-- The text section of `emitProgram` when `i` top-level statements were rendered before it. -/
+def textsBlock (o : Opts) (i : Nat) : List Text → List Line
+  | [] => []
+  | t :: r => (if i > 0 then [Line.blank] else []) ++ emitText o t ++ textsBlock o (i + 1) r
+
+theorem textsBlock_eq (o : Opts) (texts : List Text) (i : Nat) :
+    ((List.range texts.length).flatMap fun j =>
+      (if i + j > 0 then [Line.blank] else []) ++ emitText o (texts.getD j {})) = textsBlock o i texts := by
+  induction texts generalizing i with
+  | nil => rfl
+  | cons t r ih =>
+    rw [List.length_cons, List.range_succ_eq_map, List.flatMap_cons, List.flatMap_map, textsBlock, ← ih (i + 1)]
+    congr 2
+    funext j
+    have : i + (j + 1) = i + 1 + j := by omega
+    simp [this]
+
+/-- `emitProgram` = rendered top-level statements, then the text section. -/
+theorem emitProgram_texts (o : Opts) (p : Program) (ls : List Line) (h : emitProgram o p = .ok ls) :
+    ∃ body i, emitTops o p.patches (p.texts.map (·.name)) p.tops 0 = .ok (body, i) ∧
+      ls = body ++ textsBlock o i p.texts := by
+  unfold emitProgram at h
+  simp only [] at h
+  split at h
+  · cases h
+  · next body i hb =>
+    rw [textsBlock_eq] at h
+    cases h
+    exact ⟨body, i, hb, rfl⟩
+
+theorem textsBlock_append (o : Opts) (pre post : List Text) (i : Nat) :
+    textsBlock o i (pre ++ post) = textsBlock o i pre ++ textsBlock o (i + pre.length) post := by
+  induction pre generalizing i with
+  | nil => simp [textsBlock]
+  | cons t r ih =>
+    simp only [List.cons_append, textsBlock, ih, List.length_cons, List.append_assoc]
+    have : i + 1 + r.length = i + (r.length + 1) := by omega
+    rw [this]
+
+theorem labelsOf_emitText (o : Opts) (t : Text) : labelsOf (emitText o t) = [(t.name, t.isGlobal)] := by
+  rw [C09.emitText_shape]
+  simp only [labelsOf_append, labelsOf_marker, List.append_nil]
+  simp [labelsOf, labelOf, List.filterMap_map, Function.comp_def]
+
+/-- The label definitions of the text section are exactly the text names, in order. -/
+theorem labelsOf_textsBlock (o : Opts) (texts : List Text) (i : Nat) :
+    labelsOf (textsBlock o i texts) = texts.map fun t => (t.name, t.isGlobal) := by
+  induction texts generalizing i with
+  | nil => rfl
+  | cons t r ih =>
+    simp only [textsBlock, labelsOf_append, labelsOf_emitText, ih, List.map_cons]
+    split <;> simp [labelsOf, labelOf]
+
+/-- **Each hoisted (or named) text is rendered exactly once, as `emitText o t`**: the output is the
+rendered top-level statements followed by, for the texts in order, an optional blank line and
+`emitText o t`; and when the text names are pairwise distinct, `t`'s label is defined by no other
+text block. -/
+theorem hoisted_text_emitted_once (o : Opts) (p : Program) (ls : List Line) (pre post : List Text)
+    (t : Text) (h : emitProgram o p = .ok ls) (hp : p.texts = pre ++ t :: post) :
+    ∃ body i, emitTops o p.patches (p.texts.map (·.name)) p.tops 0 = .ok (body, i) ∧
+      ls = body ++ textsBlock o i pre ++
+        ((if i + pre.length > 0 then [Line.blank] else []) ++ emitText o t) ++
+        textsBlock o (i + pre.length + 1) post ∧
+      labelsOf (textsBlock o i p.texts) = p.texts.map (fun t => (t.name, t.isGlobal)) ∧
+      (firstDuplicateText p.texts [] = none →
+        (∀ g, (t.name, g) ∉ labelsOf (textsBlock o i pre)) ∧
+        (∀ g, (t.name, g) ∉ labelsOf (textsBlock o (i + pre.length + 1) post))) := by
+  obtain ⟨body, i, hb, hl⟩ := emitProgram_texts o p ls h
+  refine ⟨body, i, hb, ?_, labelsOf_textsBlock _ _ _, ?_⟩
+  · rw [hl, hp, textsBlock_append, textsBlock]; simp [List.append_assoc]
+  · intro hd
+    have hn := ((C20.firstDuplicateText_none_iff p.texts []).1 hd).1
+    rw [hp] at hn
+    simp only [List.map_append, List.map_cons] at hn
+    have hn' := List.nodup_append.1 hn
+    constructor
+    · intro g hm
+      rw [labelsOf_textsBlock] at hm
+      obtain ⟨x, hx, he⟩ := List.mem_map.1 hm
+      have := hn'.2.2 x.name (List.mem_map.2 ⟨x, hx, rfl⟩) t.name (by simp)
+      exact this (Prod.mk.inj he).1
+    · intro g hm
+      rw [labelsOf_textsBlock] at hm
+      obtain ⟨x, hx, he⟩ := List.mem_map.1 hm
+      have h2 := (List.nodup_cons.1 hn'.2.1).1
+      exact h2 ((Prod.mk.inj he).1 ▸ List.mem_map.2 ⟨x, hx, rfl⟩)
+
+/-- Counting version: with pairwise distinct names, exactly one label-definition line of the text
+section carries `t`'s name. -/
+theorem text_label_defined_once (o : Opts) (texts : List Text) (i : Nat) (t : Text) (ht : t ∈ texts)
+    (hd : firstDuplicateText texts [] = none) :
+    ((labelsOf (textsBlock o i texts)).map (·.1)).count t.name = 1 := by
+  have hn := ((C20.firstDuplicateText_none_iff texts []).1 hd).1
+  rw [labelsOf_textsBlock, List.map_map]
+  have : (texts.map ((fun x : String × Bool => x.1) ∘ fun t => (t.name, t.isGlobal))) = texts.map (·.name) := by
+    simp [Function.comp_def]
+  rw [this, hn.count]
+  simp [List.mem_map.2 ⟨t, ht, rfl⟩]
+
+/-- `ParseProgram` only returns programs whose text names are pairwise distinct; the texts are the
+hoisted ones followed by the `text` statements, and the patches are the recorded ones. -/
+theorem parseProgram_texts (env : Env) (fuel : Nat) (s : PState) :
+    wp (parseProgramM env fuel) s (fun p s' =>
+      p.texts = s'.inlineTexts ++ s'.textStatements ∧ p.patches = s'.patches ∧
+      firstDuplicateText p.texts [] = none) := by
+  unfold parseProgramM
+  rw [wp_bind]
+  refine wp_mono (wp_true _ _) ?_
+  intro tops s1 _
+  simp only [wp_bind, wp_get]
+  split
+  · simp only [wp_bind, wp_fail]
+  · next hnone =>
+    split
+    · simp only [wp_bind, wp_fail]
+    · rw [wp_pure]
+      exact ⟨rfl, rfl, hnone⟩
+
+
+/-- Whole parser: a successfully parsed program has pairwise distinct text names, so
+`hoisted_text_emitted_once` / `text_label_defined_once` apply to it. -/
+theorem parseTokens_texts_distinct (env : Env) (toks : List Tok) (p : Program)
+    (h : parseTokens env toks = .ok p) : firstDuplicateText p.texts [] = none := by
+  unfold parseTokens at h
+  simp only [StateT.run'] at h
+  generalize hr : (parseProgramM env (4 * toks.length + 50))
+    { toks := toks, eof := toks.getLastD { type := .EOF } } = res at h
+  cases res with
+  | error e => simp [Functor.map, Except.map] at h
+  | ok r =>
+    obtain ⟨p', s'⟩ := r
+    simp only [Functor.map, Except.map, Except.ok.injEq] at h
+    subst h
+    exact (parseProgram_texts env _ _ p' s' hr).2.2
+
+/-! ## Non-vacuity -/
+
+def s0 : PState := { toks := [], eof := {} }
+def mv (id pos : Nat) (steps : List String) (owner : String) : ImpMovement :=
+  { cmdId := id, cmdTok := {}, argPos := pos, movements := steps.map fun l => { type := .IDENT, lit := l },
+    scriptName := owner }
+def tx (id pos : Nat) (content ty owner : String) : ImpText :=
+  { cmdId := id, argPos := pos, text := { type := .STRING, lit := content }, stringType := ty, scriptName := owner }
+
+def mA := mv 0 1 ["walk_up", "walk_down"] "S"
+def mB := mv 1 1 ["walk_up"] "T"
+def mA' := mv 2 1 ["walk_up", "walk_down"] "T"
+
+/-- group 1: numbering per owner, sharing across scripts, patches in order -/
+example :
+    massigned s0 mA = "S_Movement_0" ∧
+    massigned (addMovementStep s0 mA) mB = "T_Movement_0" ∧
+    massigned (addMovementStep (addMovementStep s0 mA) mB) mA' = "S_Movement_0" ∧
+    ([mA, mB, mA'].foldl addMovementStep s0).patches =
+      [((0, 1), "S_Movement_0"), ((1, 1), "T_Movement_0"), ((2, 1), "S_Movement_0")] ∧
+    (([mA, mB, mA'].foldl addMovementStep s0).inlineMovements.map (·.name)) =
+      ["S_Movement_0", "T_Movement_0"] := by decide
+
+example : massigned ([mB].foldl addMovementStep (addMovementStep s0 mA)) mA' = massigned s0 mA :=
+  movement_same_key_same_label s0 mA mA' [mB] (by decide)
+
+example : massigned ([].foldl addMovementStep (addMovementStep s0 mA)) mB ≠ massigned s0 mA :=
+  different_steps_different_labels s0 (moveInv_init _ rfl rfl) mA mB []
+    (by simp [NoColon, mA, mv]) (by simp [NoColon, mB, mv]) (by decide)
+
+example : NoColon mA.movements ∧ mkeyOf mA = "walk_up:walk_down:" := by
+  refine ⟨by simp [NoColon, mA, mv], by decide⟩
+
+def tA := tx 0 1 "Hello$" "" "S"
+def tB := tx 1 1 "Hello$" "braille" "S"
+def tA' := tx 2 2 "Hello$" "" "T"
+
+/-- group 2 -/
+example :
+    assigned s0 tA = "S_Text_0" ∧ assigned (addTextStep s0 tA) tB = "S_Text_1" ∧
+    assigned (addTextStep (addTextStep s0 tA) tB) tA' = "S_Text_0" := by decide
+
+example : assigned ([].foldl addTextStep (addTextStep s0 tA)) tB ≠ assigned s0 tA :=
+  different_content_different_label s0 (textInv_init _ rfl rfl) tA tB [] (by decide)
+
+example : ∃ x ∈ (addTextStep s0 tA).inlineTexts, x.name = "S_Text_0" ∧ x.value = "Hello$" ∧
+    x.stringType = "" ∧ x.isGlobal = false :=
+  assigned_text_defined s0 (textInv_init _ rfl rfl) tA
+
+/-- Owners that imitate the scheme do not collide: `A` #1 … vs `A_Text_1` #0. -/
+example : getImplicitTextLabel "A_Text_1" 0 = "A_Text_1_Text_0" ∧ getImplicitTextLabel "A" 1 = "A_Text_1" ∧
+    getImplicitTextLabel "A_Text_1" 0 ≠ getImplicitTextLabel "A" 10 := by decide
+
+/-- group 3 -/
+def cmd0 : Cmd := { id := 0, name := "msgbox", args := ["a", "", "MSGBOX_DEFAULT"] }
+
+example : patchedArgs [((0, 1), "L0"), ((1, 1), "X"), ((0, 1), "L1")] cmd0 = ["a", "L1", "MSGBOX_DEFAULT"] ∧
+    patchedArgs [((1, 1), "X")] cmd0 = cmd0.args := by decide
+
+example : (patchedArgs ([((0, 1), "L0")] ++ ((cmd0.id, 1), "L1") :: [((1, 1), "X")]) cmd0)[1]? = some "L1" :=
+  patched_slot _ _ cmd0 1 "L1" (by decide) (by decide)
+
+example : ∃ args, renderCommand ((addTextStep s0 tA).patches ++ [((1, 1), "X")]) cmd0 = .command "msgbox" args ∧
+    args[1]? = some "S_Text_0" ∧ args.length = 3 :=
+  hoisted_text_label_rendered s0 tA cmd0 [((1, 1), "X")] rfl (by decide) (by decide)
+
+/-- two inline items in one argument: `msgbox("a" ascii"b")` gives both the slot `(0, 0)` -/
+example : (patchedArgs (addTextStep (addTextStep s0 (tx 0 0 "a$" "" "S")) (tx 0 0 "b\\0" "ascii" "S")).patches
+    { id := 0, name := "msgbox", args := [" "] }) = ["S_Text_1"] := by decide
+
+/-- group 4 -/
+def prog : Program :=
+  { tops := [], texts := [{ name := "S_Text_0", value := "Hi$" }, { name := "S_Text_1", value := "a\nb$" }] }
+
+example : emitProgram {} prog = .ok
+    [.labelDef "S_Text_0" false, .textLine "string" "Hi$", .blank,
+     .labelDef "S_Text_1" false, .textLine "string" "a", .textLine "string" "b$"] := by
+  rfl
+
+example :=
+  hoisted_text_emitted_once {} prog _ [{ name := "S_Text_0", value := "Hi$" }] []
+    { name := "S_Text_1", value := "a\nb$" } rfl rfl
+
+example : firstDuplicateText prog.texts [] = none := by decide
+
 
 end Pory.C06b
